@@ -155,11 +155,41 @@ func c10Hammer(r *R) {
 			}
 		})
 	}
+	// in some runs Stop itself is one of the concurrent callers: the root's own termination races ActorOf/Kill/Tell
+	stopEarly := r.Chance(30)
+	var stopErr error
+	if stopEarly {
+		r.Count("stop-while-hammering")
+		after := r.Choose(60)
+		wg.Add(1)
+		vsimrt.Go("c10.stopper", func() {
+			defer wg.Done()
+			for k := 0; k < after; k++ {
+				vsimrt.Yield()
+			}
+			stopErr = w.Sys.Stop(30 * time.Second)
+			vsimrt.Yield()
+		})
+	}
 	r.Waiting("hammer goroutines")
 	wg.Wait()
 	vsimrt.Yield()
 	vsimrt.SettleFor(500 * time.Millisecond)
 	if r.Failed() {
+		return
+	}
+	if stopEarly {
+		if stopErr != nil {
+			r.Fail("C10/stop-failed while-hammering", "Stop called while %d goroutines were using the system returned %v", nG, stopErr)
+			return
+		}
+		vsimrt.Fence()
+		for _, c := range actor.VsimContexts(sysI) {
+			if c.Path != "/" && c.State != 2 {
+				r.Fail("C10/actor-survived-stop while-hammering", "after Stop returned nil, %s is still registered in state %d (children %v)", c.Path, c.State, c.Children)
+				return
+			}
+		}
 		return
 	}
 	// tree consistency at quiescence
